@@ -10,8 +10,8 @@ NAMES = ['c14_ser_u8', 'c14_ser_u16', 'c14_ser_u32', 'c14_ser_u64', 'c14_ser_usi
 PROG = None
 def task(item):
     if item[0] == 'de':
-        _, entry, depth, symn, dl = item
-        return DJ.deser_job(PROG, entry, dl, depth=depth, symbolic_numbers=symn)
+        _, entry, depth, symn, dl = item[:5]
+        return DJ.deser_job(PROG, entry, dl, depth=depth, symbolic_numbers=symn, A=item[5] if len(item) > 5 else 2)
     top, depth, dl = item
     return SJ.serde_job(PROG, top, depth, dl)
 def run(run):
@@ -21,7 +21,7 @@ def run(run):
     XP.run_translator_validation(run, PROG, every=8 if run.tier == 'quick' else 1)
     depth = 1 if run.tier == 'quick' else 2
     jobs = [(k, depth if k in SJ.COMPOSITE else 0, run.deadline) for k in SJ.LEAVES + SJ.COMPOSITE]
-    jobs += [('de', e, 1, True, run.deadline) for e in ('any', 'option', 'enum', 'newtype')] + [('de', e, 2, False, run.deadline) for e in ('any', 'option', 'enum', 'newtype')]
+    jobs += [('de', e, 1, True, run.deadline) for e in ('any', 'option', 'enum', 'newtype')] + [('de', e, 2, False, run.deadline, 1 if run.tier == 'quick' else 2) for e in ('any', 'option', 'enum', 'newtype')]
     run_jobs(run, jobs, task, 'mirsym: serde data model values through the crate Serializer vs the serde_json image; Deserializer event streams vs serde_json')
     run.cands = [c for c in run.cands if c['key'].startswith('c14:')]
     run_kani_only(run, NAMES,
